@@ -686,10 +686,17 @@ func (g *G) visit(fr *Frame, ins ssa.Instruction) int {
 	case *ssa.Field:
 		fr.set(ins, copyVal(fr.get(ins.X).(Struct)[ins.Field]))
 	case *ssa.IndexAddr:
-		fr.set(ins, g.indexAddr(fr.get(ins.X), fr.get(ins.Index).(IntV), ins.Pos()))
+		idx := g.widenIndex(fr.get(ins.Index).(IntV), ins.Index.Type())
+		if idx.S != nil && onlyLoaded(ins) {
+			if sp := g.symTableAddr(fr.get(ins.X), idx, ins.Pos()); sp != nil {
+				fr.set(ins, sp)
+				break
+			}
+		}
+		fr.set(ins, g.indexAddr(fr.get(ins.X), idx, ins.Pos()))
 	case *ssa.Index:
 		x := fr.get(ins.X)
-		idx := fr.get(ins.Index).(IntV)
+		idx := g.widenIndex(fr.get(ins.Index).(IntV), ins.Index.Type())
 		switch x := x.(type) {
 		case Array:
 			i := g.checkIndex(idx, len(x), ins.Pos())
@@ -805,6 +812,9 @@ func (g *G) unop(fr *Frame, ins *ssa.UnOp) Value {
 	x := fr.get(ins.X)
 	switch ins.Op {
 	case token.MUL: // load
+		if sp, isSym := x.(*symTablePtr); isSym {
+			return g.symTableLoad(sp, ins.Type())
+		}
 		p, ok := x.(*Value)
 		if !ok {
 			panic(fmt.Sprintf("load from %T at %s", x, g.vm.posStr(ins.Pos())))
@@ -835,6 +845,99 @@ func (g *G) unop(fr *Frame, ins *ssa.UnOp) Value {
 // ---- indices, slices
 
 // checkIndex returns a concrete in-range index (exploring the panic path when feasible).
+// symTablePtr: the address of element [idx] of an array or slice whose elements are all concrete integers, with a
+// symbolic idx that is known to be in range. It exists only where every use of the address is a load (onlyLoaded);
+// the load yields ite(idx==0, e0, ite(idx==1, e1, ...)). This keeps look-ups in constant tables (unicode/utf8's
+// first[], strconv's tables) symbolic instead of forking once per feasible index value.
+type symTablePtr struct {
+	elems []Value
+	idx   *Term
+}
+
+func onlyLoaded(ins *ssa.IndexAddr) bool {
+	refs := ins.Referrers()
+	if refs == nil || len(*refs) == 0 {
+		return false
+	}
+	for _, r := range *refs {
+		u, ok := r.(*ssa.UnOp)
+		if !ok || u.Op != token.MUL {
+			if _, dbg := r.(*ssa.DebugRef); dbg {
+				continue
+			}
+			return false
+		}
+	}
+	return true
+}
+
+func (g *G) symTableAddr(x Value, idx IntV, pos token.Pos) Value {
+	if g.vm.intMode || g.vm.race != nil || g.vm.ledger != nil {
+		return nil
+	}
+	var elems []Value
+	switch x := x.(type) {
+	case []Value:
+		elems = x
+	case *Value:
+		if x == nil {
+			return nil
+		}
+		a, ok := (*x).(Array)
+		if !ok {
+			return nil
+		}
+		elems = a
+	default:
+		return nil
+	}
+	if len(elems) < 2 || len(elems) > 4096 {
+		return nil
+	}
+	for _, e := range elems {
+		iv, ok := e.(IntV)
+		if !ok || iv.S != nil {
+			return nil
+		}
+	}
+	if _, ok := g.unique(idx); ok {
+		return nil
+	}
+	tb := g.vm.tb
+	inr := tb.Cmp(OpULt, idx.S, tb.Const(uint64(len(elems)), idx.S.w))
+	if !g.branch(inr, "index-in-range") {
+		g.tpanic("index", fmt.Sprintf("index out of range [sym] with length %d", len(elems)), pos)
+	}
+	return &symTablePtr{elems: elems, idx: idx.S}
+}
+
+func (g *G) symTableLoad(sp *symTablePtr, t types.Type) Value {
+	w, signed := intInfo(t)
+	tb := g.vm.tb
+	n := len(sp.elems)
+	res := tb.Const(sp.elems[n-1].(IntV).C, w)
+	for i := n - 2; i >= 0; i-- {
+		res = tb.Ite(tb.Eq(sp.idx, tb.Const(uint64(i), sp.idx.w)), tb.Const(sp.elems[i].(IntV).C, w), res)
+	}
+	return g.vm.fromTermT(res, w, signed)
+}
+
+// widenIndex extends a symbolic index of a narrow integer type (uint8, int16, ...) to 64 bits by its signedness, so
+// that the bounds comparison against the length is not made in the narrow width (256 does not fit into 8 bits).
+func (g *G) widenIndex(idx IntV, t types.Type) IntV {
+	if idx.S == nil || idx.S.w <= 0 || idx.S.w >= 64 {
+		return idx
+	}
+	signed := false
+	if b, ok := t.Underlying().(*types.Basic); ok {
+		signed = b.Info()&types.IsUnsigned == 0
+	}
+	if signed {
+		return IntV{S: g.vm.tb.SExt(idx.S, 64)}
+	}
+	return IntV{S: g.vm.tb.ZExt(idx.S, 64)}
+}
+
 func (g *G) checkIndex(idx IntV, n int, pos token.Pos) int {
 	if idx.S == nil {
 		i := int64(idx.C)
